@@ -39,6 +39,9 @@ STATIC_ONLY = ('loss', 'loss_gradient', 'gradient')
 # documented "refit from scratch" mode of an estimator whose fit otherwise continues training: fit is analysed with this
 # argument fixed (the run-time history sweep calls it the same way)
 ENTRY_ASSUME = {'GNNClassifier': {'reinit': True}}
+# reflective methods reviewed by hand: they touch only attributes named like constructor parameters
+# (get_params reads self.__dict__[p] for p in the signature of __init__, set_params setattr()s only those names)
+REFLECTIVE_OK = (('Algorithm', 'get_params'), ('Algorithm', 'set_params'))
 ALIAS_WRAPPERS = ('enumerate', 'reversed', 'list', 'tuple', 'zip', 'sorted', 'iter')
 
 
@@ -206,6 +209,7 @@ class _Flow:
 
     def reset(self):
         self.reads_first, self.assigned, self.mutated = set(), set(), set()
+        self.delegations, self.sub_reads_first = set(), set()
         self.memo = {}
 
     def find(self, name, start=0):
@@ -219,6 +223,53 @@ class _Flow:
         for k in self.mro:
             out |= set(k.methods)
         return out
+
+    def accumulators(self):
+        """Attributes that no method of the class (whole MRO) ever reads except to append to them (`self.x += e`):
+        their value flows nowhere else.  Empty as soon as `self` is used in a way that is not understood."""
+        ok, bad = set(), set()
+        for k in self.mro:
+            for fn in k.methods.values():
+                if fn.name in k.static or (k.name, fn.name) in REFLECTIVE_OK:
+                    continue
+                pos = fn.args.posonlyargs + fn.args.args
+                if not pos:
+                    return set()
+                sn = pos[0].arg
+                parent = {}
+                for n in ast.walk(fn):
+                    for c in ast.iter_child_nodes(n):
+                        parent[c] = n
+                for n in ast.walk(fn):
+                    if not (isinstance(n, ast.Name) and n.id == sn):
+                        continue
+                    par = parent.get(n)
+                    if isinstance(par, ast.Attribute) and par.value is n:
+                        gp = parent.get(par)
+                        if isinstance(gp, ast.AugAssign) and gp.target is par:
+                            inner = [m for m in ast.walk(gp.value) if isinstance(m, ast.Name) and m.id == sn]
+                            (bad if inner else ok).add(par.attr)
+                        elif isinstance(par.ctx, ast.Store) and isinstance(gp, (ast.Assign, ast.AnnAssign)):
+                            pass
+                        else:
+                            bad.add(par.attr)
+                    elif isinstance(par, ast.Return):
+                        pass
+                    elif isinstance(par, ast.Call) and isinstance(par.func, ast.Name) and par.func.id == 'super':
+                        pass
+                    elif isinstance(par, ast.Call) and isinstance(par.func, ast.Name) and par.func.id in ('hasattr', 'getattr') \
+                            and len(par.args) >= 2 and par.args[0] is n and isinstance(par.args[1], ast.Constant):
+                        bad.add(par.args[1].value)
+                    elif isinstance(par, ast.Call) and isinstance(par.func, ast.Attribute) and isinstance(par.func.value, ast.Name) \
+                            and par.args and par.args[0] is n and any(c.name == par.func.value.id for c in self.mro):
+                        pass
+                    else:
+                        return set()
+        for k in self.mro:       # the reflective methods can reach attributes named like constructor parameters
+            if '__init__' in k.methods:
+                a = k.methods['__init__'].args
+                bad |= {x.arg for x in a.posonlyargs + a.args + a.kwonlyargs}
+        return ok - bad
 
     # -- methods --------------------------------------------------------------------------------
     def call(self, name, start, D, assume=None):
@@ -309,6 +360,16 @@ class _Func:
                 pairs.append((n.target, n.iter))
             elif isinstance(n, ast.withitem) and n.optional_vars is not None:
                 pairs.append((n.optional_vars, n.context_expr))
+        # direct aliases: a local name bound exactly once, to `self.x` itself (the whole object)
+        stores = {}
+        for n in ast.walk(self.fn):
+            if isinstance(n, ast.Name) and isinstance(n.ctx, (ast.Store, ast.Del)):
+                stores[n.id] = stores.get(n.id, 0) + 1
+        params = {x.arg for x in self.fn.args.posonlyargs + self.fn.args.args + self.fn.args.kwonlyargs}
+        self.direct = {}
+        for t, v in pairs:
+            if isinstance(t, ast.Name) and stores.get(t.id) == 1 and t.id not in params and self.is_self_attr(v):
+                self.direct[t.id] = v.attr
         changed = True
         while changed:
             changed = False
@@ -323,6 +384,14 @@ class _Func:
         return self.alias
 
     # -- driver ----------------------------------------------------------------------------------------------------
+    def whole(self, e):
+        """x when e denotes the whole object held in self.x (self.x itself or a direct alias of it)."""
+        if self.is_self_attr(e):
+            return e.attr
+        if isinstance(e, ast.Name):
+            return getattr(self, 'direct', {}).get(e.id)
+        return None
+
     def run(self, D):
         a = self.fn.args
         for d in list(a.defaults) + [k for k in a.kw_defaults if k is not None]:
@@ -463,7 +532,7 @@ class _Func:
         f = self.flow
         if self.is_self_attr(t):
             f.assigned.add(t.attr)
-            return D | {t.attr}
+            return (D - {t.attr + '.*'}) | {t.attr}
         if isinstance(t, ast.Name):
             if t.id == self.selfname:
                 raise TranslateError('assignment to self in ' + self.where)
@@ -522,6 +591,9 @@ class _Func:
                     return D
                 f.read(e.attr, D)
                 return D
+            x = self.whole(e.value)
+            if x is not None and (x + '.*') not in D:
+                f.sub_reads_first.add(x)      # state of the object in self.x read before self.x.fit*(...) in this call
             return self.expr(e.value, D)
         if isinstance(e, ast.Call):
             return self.call(e, D)
@@ -657,6 +729,11 @@ class _Func:
         if D is None:
             return None
         if isinstance(fn, ast.Attribute):
+            x = self.whole(fn.value)
+            if x is not None and (fn.attr == 'fit' or fn.attr.startswith('fit_')):
+                # delegation: the sub-estimator held in self.x is refitted as a whole (its own facts say what that means)
+                f.delegations.add((x, fn.attr))
+                return D | {x + '.*'}
             if fn.attr not in PURE_METHODS and fn.attr not in STATIC_ONLY:
                 for x in self.root(fn.value):
                     f.mutate(x, D)
@@ -674,7 +751,7 @@ def analyse():
     for mod in sorted(world.mods):
         for name in sorted(world.mods[mod]['classes']):
             world.get(mod, name)
-    facts, skipped, assumed = [], [], []
+    facts, skipped, assumed, accumulators, delegations = [], [], [], [], []
     names = {}
     for key in sorted(world.cls):
         for m in STATIC_ONLY:
@@ -721,21 +798,27 @@ def analyse():
             flow.call(w, 0, set())
         flow.reads_first, flow.mutated = keep
         touched = flow.assigned | flow.mutated
+        deleg = {x for x, _ in flow.delegations}
+        over = [(a, a in flow.reads_first or a in (deleg & flow.sub_reads_first)) for a in sorted(config & touched)]
+        over += [(a, a in flow.sub_reads_first) for a in sorted((config & deleg) - touched)]
         facts.append(dict(
-            cls=c.name, config=sorted(config),
-            over=[(a, a in flow.reads_first) for a in sorted(config & touched)],
-            stale_reads=sorted(flow.reads_first - config),
+            cls=c.name, config=sorted(config), over=sorted(over),
+            stale_reads=sorted((flow.reads_first | (deleg & flow.sub_reads_first)) - config),
             stale_outputs=sorted(flow.assigned - d_fit)))
+        acc = flow.accumulators()
+        accumulators += [(c.name, a) for a in sorted(acc & (flow.reads_first | flow.assigned))]
+        delegations += [(c.name, x, m) for x, m in sorted(flow.delegations)]
     if not facts:
         raise TranslateError('no estimator class found')
     for k in ENTRY_ASSUME:
         if k not in names:
             raise TranslateError('entry assumption for unknown class ' + k)
-    return facts, sorted(skipped), assumed
+    facts.sort(key=lambda f: f['cls'])
+    return facts, sorted(skipped), sorted(assumed), sorted(accumulators), sorted(delegations)
 
 
 def gen_fitstate():
-    facts, skipped, assumed = analyse()
+    facts, skipped, assumed, accumulators, delegations = analyse()
     out = ['(* generated from every class of sknetwork/**/*.py that defines or inherits fit: see harness/translators/fitstate.py *)',
            'From Coq Require Import String List Bool.', 'Import ListNotations.', 'Open Scope string_scope.',
            'Record fit_state := { fs_class : string; fs_config : list string; fs_config_overwritten : list (string * bool);',
@@ -748,12 +831,23 @@ def gen_fitstate():
             '; '.join(_cstr(a) for a in f['stale_reads']), '; '.join(_cstr(a) for a in f['stale_outputs'])))
     out.append('Definition fit_state_facts : list fit_state := [\n  %s].' % ';\n  '.join(items))
     out.append('Definition fit_state_classes : list string := map fs_class fit_state_facts.')
+    out.append('(* attributes that no method of the class reads except to append to them (self.x += e): nothing flows out of them *)')
+    out.append('Definition fit_state_accumulators : list (string * string) := [%s].' %
+               '; '.join('(%s, %s)' % (_cstr(a), _cstr(b)) for a, b in accumulators))
+    out.append('(* self.x.fit*(...): the sub-estimator held in a constructor-assigned attribute is refitted as a whole *)')
+    out.append('Definition fit_state_delegations : list (string * string * string) := [%s].' %
+               '; '.join('(%s, %s, %s)' % (_cstr(a), _cstr(b), _cstr(m)) for a, b, m in delegations))
+    out.append('Definition is_accumulator (p : string * string) : bool :=\n'
+               '  existsb (fun q => String.eqb (fst p) (fst q) && String.eqb (snd p) (snd q)) fit_state_accumulators.')
     out.append('Definition all_stale_reads : list (string * string) :=\n'
-               '  flat_map (fun f => map (pair (fs_class f)) (fs_stale_reads f)) fit_state_facts.')
+               '  filter (fun p => negb (is_accumulator p))\n'
+               '    (flat_map (fun f => map (pair (fs_class f)) (fs_stale_reads f)) fit_state_facts).')
     out.append('Definition all_config_overwritten_read_first : list (string * string) :=\n'
-               '  flat_map (fun f => map (fun p => (fs_class f, fst p)) (filter snd (fs_config_overwritten f))) fit_state_facts.')
+               '  filter (fun p => negb (is_accumulator p))\n'
+               '    (flat_map (fun f => map (fun p => (fs_class f, fst p)) (filter snd (fs_config_overwritten f))) fit_state_facts).')
     out.append('Definition all_stale_outputs : list (string * string) :=\n'
-               '  flat_map (fun f => map (pair (fs_class f)) (fs_stale_outputs f)) fit_state_facts.')
+               '  filter (fun p => negb (is_accumulator p))\n'
+               '    (flat_map (fun f => map (pair (fs_class f)) (fs_stale_outputs f)) fit_state_facts).')
     out.append('(* arguments of fit fixed for the analysis (documented refit-from-scratch mode) *)')
     out.append('Definition fit_state_entry_assumptions : list (string * string * bool) := [%s].' %
                '; '.join('(%s, %s, %s)' % (_cstr(a), _cstr(b), _bool(v)) for a, b, v in assumed))
